@@ -256,3 +256,70 @@ check("C30", "vloop+bussim+explore",
       "datagrams from the second cycle on.",
       "A frame passes the terminals when it is sent; only its return may be "
       "late.")
+
+check("C18", "vloop+bussim",
+      "exhaustive enumeration of terminal sets through the real allocator, "
+      "independent frame parser, FMMU mapping executed on the bus model",
+      "All sequences of <= 2 (quick) / 3 (thorough) terminals over 64 kinds "
+      "(input size x output size from {0,1,7,700} x read-write x "
+      "FMMU/direct), large single terminals up to the exact frame limit, "
+      "4-terminal sequences over sizes {0,2}, 7-16 direct terminals (count "
+      "limit), an Aerotech-style terminal, and 2-3 sync groups on one master "
+      "run through the real allocate(); the cyclic frame is parsed "
+      "independently: each region lies inside the datagram that transports "
+      "it (right command/address), has exactly the terminal's size, regions "
+      "are disjoint and tile the logical datagrams; the real map_fmmu() "
+      "register writes are executed against the ESC models and "
+      "position-coded inputs/outputs pushed through the bus model must "
+      "arrive exactly in the regions; logical windows of different groups "
+      "are disjoint; groups are rejected exactly when the frame they need "
+      "exceeds 1500 bytes / 15 datagrams.",
+      "Only EtherCat.get_fmmu_addr (single process) is used here; the "
+      "cross-process FMMULock allocator is C23's subject.")
+check("C04", "bpfvm",
+      "exhaustive enumeration of program shapes x statements; static "
+      "disjointness + dynamic whole-memory snapshot observer",
+      "696 (quick) program shapes (main locals from 6 kinds in all sequences "
+      "up to 2/3, Dict before/after/absent, array-map, hash-map and packet "
+      "variables, 0-2 subprogram classes in 3 instance layouts) x ~95 "
+      "statements each (constants, copies, register expressions, hash-map "
+      "reads/writes with spills, ktime/prandom, in-place adds, run-time bit "
+      "writes, Dict update/lookup) executed in the interpreter: all "
+      "variables are pre-filled with sentinels by raw instructions, the "
+      "whole memory (stack, packet, maps) is snapshotted before/after the "
+      "statement, changed bytes must belong to the target or to no declared "
+      "variable and every other variable must read back its sentinel; "
+      "descriptor-reported ranges and recorded temporaries must be disjoint.",
+      "Frames of different subprograms overlay each other by construction "
+      "(pinned by the suite's test_local_subprog): subprogram locals are "
+      "judged only in their own program() context.")
+check("C06", "bpfvm",
+      "explicit-state search over ALL instruction-level interleavings of 2-3 "
+      "program instances sharing memory",
+      "For 1592 (quick) configurations (9 memory kinds x formats I i Q q x x "
+      "8-10 amount forms) x initial values {0,1,max,max-1,sign bit} the "
+      "compiled statement `var += amount` / `-=` is executed by 2 and 3 "
+      "interpreter instances with private registers/stacks and shared "
+      "packet/map memory; the search enumerates every reachable (pc, "
+      "registers, shared bytes) state with exact dedup, i.e. all "
+      "interleavings at instruction granularity; at every terminal state "
+      "the variable equals initial + sum of amounts and no other shared "
+      "byte changed.",
+      "Atomicity of XADD itself is an axiom of the interpreter (as of the "
+      "hardware); sequential consistency is assumed. Variables declared "
+      "with a byte-order prefix are outside the statement (not XADD'd).")
+check("C07", "bpfvm",
+      "exhaustive enumeration of access paths x offsets x formats x packet "
+      "lengths; struct reference; real-kernel differential",
+      "Real XDP subclasses with 6 access paths (PacketVar and pB/pH/pI/pQ "
+      "under minimumPacketSize, p.pX inside packetSize > >= < <= blocks), "
+      "guards {16,24}, offsets across the guarded range, formats B H I Q b "
+      "h i q x orders native < > !, reads into 4 register kinds and 8 local "
+      "formats, writes of constants/registers/locals, in-place += -= |= &=; "
+      "each program runs on packet lengths guard-2..guard+9, 14 and 1514 "
+      "with 8 content patterns (2.65e6 runs quick, 1.66e7 thorough); oracle "
+      "struct.unpack_from/pack_into on a copy, all other bytes unchanged, "
+      "body runs iff the length satisfies the guard, any access beyond "
+      "data_end traps. ~0.24e6 runs are repeated in the real kernel.",
+      "Out-of-range written values are judged only for untouched bytes; "
+      "sw sources widened to 8 bytes are C01's known finding.")
